@@ -72,7 +72,7 @@ def write_pretree_lens(bw, rng, newlens, oldlens, first, last):
         elif s==19:
             bw.bits(e,1); c2,l2=pc[z]; bw.bits(c2,l2)
 
-def encode(rng, wbits, total, delta=False, ref=b'', e8=False, reset_interval=0, cuts=None, match_p=0.5, early=False):
+def encode(rng, wbits, total, delta=False, ref=b'', e8=False, reset_interval=0, cuts=None, match_p=0.5, early=False, btypes=None):
     """returns (stream bytes, plaintext before E8 postprocessing is irrelevant: we only diff decoders)"""
     wsize=1<<wbits; nslots=SLOTS[wbits-15]; nmain=256+nslots*8
     bw=BitW(); data=bytearray(); R=[1,1,1]; hostile_done=False
@@ -108,7 +108,7 @@ def encode(rng, wbits, total, delta=False, ref=b'', e8=False, reset_interval=0, 
         if reset_interval:       # blocks end at reset boundaries; no match reaches before the last reset point
             rb=(pos//(32768*reset_interval))*32768*reset_interval; bsize=min(bsize, rb+32768*reset_interval-pos)
         else: rb=0
-        btype=rng.choice([1,1,2,2,3])
+        btype=rng.choice(btypes or [1,1,2,2,3])
         # pre-generate tokens for this block so that trees cover the used symbols
         toks=[]; p=pos; bend=pos+bsize; r=list(R)
         if btype==3:
